@@ -3,6 +3,7 @@
 package main
 
 import (
+	"verif/harness/engines/c10"
 	"verif/harness/engines/c25"
 	"verif/harness/engines/c26"
 	"verif/harness/sim"
@@ -10,6 +11,7 @@ import (
 
 func main() {
 	sim.WorkerMain(map[string]func() sim.Engine{
+		"C10": c10.New,
 		"C25": c25.New,
 		"C26": c26.New,
 	})
